@@ -1643,6 +1643,17 @@ static void gen_mutations(CorpusFile const &f, KindSets const &K, bool th, std::
           c.cls = "number-with-trailing-text"; c.shape = shape; c.ctx = kind; c.key = lk;
           c.text = T.substr(0, lt) + core + "abc" + tail + T.substr(lt + last.size());
           M.push_back(c);
+          // an extra token after the last number that is only the beginning of a number (the stream reader swallows it and
+          // reaches the end of the value): "-", "1e", "+.", "."
+          if (n.kind == 1 && tail.empty()) {
+            static const char *dangling[] = {" -", " 1e", " +.", " ."};
+            for (int di = 0; di < (th ? 4 : 2); di++) {
+              Mut e;
+              e.cls = "number-followed-by-the-beginning-of-a-number"; e.shape = shape + "/" + std::string(dangling[di] + 1); e.ctx = kind; e.key = lk;
+              e.text = T.substr(0, lt) + last + dangling[di] + T.substr(lt + last.size());
+              M.push_back(e);
+            }
+          }
         }
       }
     }
